@@ -177,8 +177,11 @@ class Sampler(ABC):
         state = self.get_state()
 
         # Convert all CUQIarrays to numpy arrays since CUQIarrays do not get pickled correctly
+        # (arrays of function values are noted, so that they can be restored as such)
         for key, value in state['state'].items():
             if isinstance(value, cuqi.array.CUQIarray):
+                if not value.is_par:
+                    state['metadata'].setdefault('function_value_keys', []).append(key)
                 state['state'][key] = value.to_numpy()
 
         with open(path, 'wb') as handle:
@@ -191,6 +194,10 @@ class Sampler(ABC):
 
         with open(path, 'rb') as handle:
             state = pkl.load(handle)
+
+        # Arrays that held function values when the checkpoint was written are function values again
+        for key in state['metadata'].get('function_value_keys', []):
+            state['state'][key] = cuqi.array.CUQIarray(state['state'][key], is_par=False, geometry=self.target.geometry)
 
         self.set_state(state)
 
